@@ -260,7 +260,8 @@ def run_amdf(case):
 # --------------------------------------------------------------------------
 _cut = st.one_of(
   st.floats(min_value=1e-3, max_value=3.14, allow_nan=False),
-  st.sampled_from([math.pi / 512, math.pi / 2, 1., .5, 3., math.pi / 6, 0.01]))
+  st.sampled_from([math.pi / 512, math.pi / 2, 1., .5, 3., math.pi / 6, 0.01]),
+  st.sampled_from([0, 0.0, math.pi, 1, 3]))     # the ends of the documented range and int cut-offs
 
 
 def strat_envelope(tier):
@@ -273,15 +274,16 @@ def run_envelope(case):
   x, cutoff, name, route = case["x"], case["cutoff"], case["strategy"], case["route"]
   n = len(x)
   kw = {} if cutoff is None else {"cutoff": cutoff}
+  positional = cutoff is not None and len(x) % 2 == 1
   cut = math.pi / 512 if cutoff is None else cutoff
   xx = 2 - math.cos(cut)
   R = xx - math.sqrt(xx ** 2 - 1)
   g = 1 - R
-  if not 0 < R < 1:
+  if not 0 < R <= 1:
     raise Violation("oracle: pole radius %r outside (0,1) for cutoff %r" % (R, cut))
   fn = envelope if name == "default" else getattr(envelope, name)
   kind = "rms" if name == "default" else name
-  got = pulled(fn(feed(x, route), **kw), n, "envelope." + name)
+  got = pulled(fn(feed(x, route), cutoff) if positional else fn(feed(x, route), **kw), n, "envelope." + name)
   if len(got) != n:
     raise Violation("envelope.%s: %d outputs for %d inputs" % (name, len(got), n))
   y = Fraction(0)
@@ -436,13 +438,36 @@ def strat_unwrap(tier):
     max_delta=st.one_of(st.fractions(min_value=0, max_value=3, max_denominator=4).map(Q),
                         st.integers(0, 3)),
     step=st.one_of(stepq, stepq, st.integers(1, 4)),
+    # how the two parameters are passed: both by keyword, both by position, or one of them left
+    # at its documented default (max_delta = pi, step = 2 pi)
+    args=st.sampled_from(["kw", "kw", "pos", "step only", "max_delta only", "defaults"]),
     route=_route))
 
 
 def run_unwrap(case):
+  import math as _m
   x, md, step, route = case["x"], case["max_delta"], case["step"], case["route"]
   n = len(x)
-  got = pulled(unwrap(feed(x, route), max_delta=md, step=step), n, "unwrap")
+  how = case.get("args", "kw")
+  if how == "pos":
+    out = unwrap(feed(x, route), md, step)
+  elif how == "step only":
+    out, md = unwrap(feed(x, route), step=step), _m.pi
+  elif how == "max_delta only":
+    out, step = unwrap(feed(x, route), max_delta=md), 2 * _m.pi
+  elif how == "defaults":
+    out, md, step = unwrap(feed(x, route)), _m.pi, 2 * _m.pi
+  else:
+    out = unwrap(feed(x, route), max_delta=md, step=step)
+  if how in ("max_delta only", "defaults"):
+    # with the irrational default step only the "untouched without jumps" claim is exact
+    got = pulled(out, n, "unwrap")
+    if len(got) != n:
+      raise Violation("unwrap: %d outputs for %d inputs (x=%r)" % (len(got), n, x))
+    if not any(abs(b - a) > md for a, b in zip(x, x[1:])) and got != x:
+      raise Violation("unwrap(x, %s) changed a sequence without jumps above max_delta=%r: %r -> %r" % (how, md, x, got))
+    return {"nontrivial": False, "labels": ["unwrap", "args:" + how]}
+  got = pulled(out, n, "unwrap")
   if len(got) != n:
     raise Violation("unwrap: %d outputs for %d inputs (x=%r)" % (len(got), n, x))
   stp = Fraction(step)
@@ -460,7 +485,7 @@ def run_unwrap(case):
       raise Violation("unwrap(x, max_delta=%r, step=%r): |out[%d]-out[%d]| = %r > max(max_delta, step/2) = %r "
                       "(x=%r out=%r)" % (md, step, i, i - 1, abs(got[i] - got[i - 1]), bound, x, got))
   corrected = got != x
-  labels = ["unwrap", "route:" + route, "jump" if any(jumps) else "no jump",
+  labels = ["unwrap", "args:" + how, "route:" + route, "jump" if any(jumps) else "no jump",
             "diff on max_delta" if any(abs(b - a) == md for a, b in zip(x, x[1:])) else "no diff on max_delta",
             "max_delta<step/2" if Fraction(md) < stp / 2 else "max_delta>=step/2"]
   if corrected:
